@@ -260,3 +260,35 @@ def run(chk):
         "grid-resolved generating functions (k*h <= 0.25)" % (
             orc.PAIR_C_INT_DER, orc.PAIR_C_DER_INT)]
     shutil.rmtree(work, ignore_errors=True)
+
+
+def replay(path):
+    """re-generate the case of a witness (seed + case index), run it again on
+    the current tree and print the verdict"""
+    import json
+    w = json.load(open(path))
+    wit = w["witness"]
+    seed, idx = int(wit["seed"]), int(wit["case_index"])
+    vf.build_flavour("asan", ["votca_tools", "votca_csg", "csg_resample"])
+    work = vf.scratch_dir("C19replay")
+    env = make_env(work)
+    sched = orc.schedule()
+    rng = random.Random("%d/%d" % (seed, idx))
+    name, gen = sched[idx % len(sched)]
+    case = gen(rng)
+    case.via_csg_call = any("csg_call" in c for c in wit.get("commands", []))
+    r = run_case(case, os.path.join(work, "c"), env, vf.exe("asan", "csg_resample"))
+    v = case.judge(case, r)
+    print("case %s #%d seed %d: %s" % (name, idx, seed, case.info))
+    for c in r.cmds:
+        print("  ran: " + " ".join(c))
+    print("  rc=%s stderr=%s" % (r.rc, (r.err + r.err2).strip()[-300:]))
+    rc = 0
+    for key, what, extra in v.violations:
+        print("VIOLATION property=C19 replay=%s key=%s %s %s" % (
+            path, key, what, json.dumps(extra, default=str)[:600]))
+        rc = 1
+    if rc == 0:
+        print("C19 replay: no violation on the current tree")
+    shutil.rmtree(work, ignore_errors=True)
+    return rc
